@@ -53,11 +53,17 @@ def weights_for(nq, kind):
         return [1.0 + 2.0 * q for q in range(nq)]
     if kind == "scaled":
         return [7.5 * (1.0 + 2.0 * q) for q in range(nq)]
+    if kind == "int":            # multiplicities given as integers
+        return [1, 6, 8, 12, 24, 3, 4, 2][:nq] if nq <= 8 else [1 + (q % 12) for q in range(nq)]
     raise ValueError(kind)
 
 
 T_GRIDS = {"zero": [0.0], "std": [0.0, 300.0, 1500.0], "low": [0.5, 2.0, 10.0], "hot": [5000.0],
-           "mix": [0.0, 1.0, 50.0, 300.0, 2000.0]}
+           "mix": [0.0, 1.0, 50.0, 300.0, 2000.0],
+           "desc": [1500.0, 900.0, 300.0, 0.0], "mid0": [600.0, 0.0, 1200.0],            # T = 0 need not be the first row
+           "n8": [0.0, 40.0, 150.0, 300.0, 600.0, 900.0, 1400.0, 2100.0],                 # lengths at block-size boundaries
+           "n16": [25.0 * k * (1 + k / 8.0) for k in range(16)], "n7": [10.0 + 200.0 * k for k in range(7)],
+           "n9": [0.0] + [100.0 * 1.4 ** k for k in range(8)]}
 V_GRIDS = {"three": [280.0, 300.0, 320.0], "one": [311.0], "five": [250.0, 262.0, 300.0, 333.0, 361.0]}
 
 
@@ -80,6 +86,13 @@ def strain_field(kind, v):
         x = numpy.log(v / V0)
         e = numpy.stack([0.25 + 0.3 * x, 0.35 - 0.5 * x, 0.40 + 0.2 * x], axis=1)
         e[0, :] = 1.0 / 3.0
+    elif kind == "ones":           # un-normalised: what the package uses when no lattice block is given
+        e = numpy.ones((n, 3))
+        return e
+    elif kind == "raw":            # positive axial strains that do not sum to 1
+        e = numpy.tile([0.9, 1.0, 1.2], (n, 1))
+        e[-1] = [2.0, 3.0, 7.0]
+        return e
     elif kind == "two-equal":      # two equal axial fractions: rotated-frame leaves coincide with crystal-frame components
         e = numpy.tile([0.25, 0.25, 0.5], (n, 1))
     elif kind == "midpoint":       # e1 = (e2 + e3)/2
